@@ -298,6 +298,27 @@ Theorem C17_generated_limitCertSize_returns_the_limit : forall (max : N) (nofuel
              limit_cert_size estimated_size max (GenAgreeBuildParams.abs c) = LDone (GenAgreeBuildParams.abs c').
 Proof. exact GenAgreeLimitCert.limitCertSize_returns_the_limit. Qed.
 
+(* ---- the last-block clamp GENERATED from max_l2blocknumber_limiter.go on every run is the model's adapt_certificate ---- *)
+From Verif Require Gen.GenAdaptCert Proofs.GenAgreeAdaptCert.
+Theorem C17_generated_AdaptCertificate_is_model : forall (l : limiter) (oc : option GenBuildParams.CertificateBuildParams),
+  match adapt_certificate l (option_map GenAgreeBuildParams.abs oc) with
+  | Ok None => GenAgreeAdaptCert.gen_adapt l oc = (None, GoNum.EOK) /\ oc = None
+  | Ok (Some p) => exists c', GenAgreeAdaptCert.gen_adapt l oc = (Some c', GoNum.EOK) /\ GenAgreeBuildParams.abs c' = p
+  | Err _ => GenAgreeAdaptCert.gen_adapt l oc = (None, GoNum.EFail)
+  end.
+Proof. exact GenAgreeAdaptCert.AdaptCertificate_agree. Qed.
+
+(* what the translated AdaptCertificate returns keeps the first block, ends at the largest permitted block and, when it had to
+   cut, is exactly the restriction of the certificate to the kept blocks (its events, whole, in their order) *)
+Theorem C17_generated_AdaptCertificate_clamps : forall (l : limiter) (c c' : GenBuildParams.CertificateBuildParams),
+  l_max l <> 0 -> GenBuildParams.CertificateBuildParams_ToBlock c < U64 ->
+  GenAgreeAdaptCert.gen_adapt l (Some c) = (Some c', GoNum.EOK) ->
+  let a := GenAgreeBuildParams.abs in
+  p_from (a c') = p_from (a c) /\ p_to (a c') = N.min (p_to (a c)) (l_max l) /\
+  (p_to (a c) <= l_max l -> a c' = a c) /\
+  (l_max l < p_to (a c) -> a c' = restrict (a c) (p_from (a c)) (l_max l)).
+Proof. exact GenAgreeAdaptCert.AdaptCertificate_clamps. Qed.
+
 (* Print Assumptions walks the whole dependency cone each time (0.8 s per call here); the theorems are therefore
    grouped in four tuples, the assumptions of a tuple being the union of the assumptions of its components *)
 Definition C17_all_range := (C17_range_is_filter, C17_range_strict_is_filter, C17_range_cases).
@@ -315,5 +336,6 @@ Print Assumptions C17_generated_gap_is_model.
 Print Assumptions C17_generated_gap_empty_iff_touching.
 Definition C17_all_generated_params := (C17_generated_Range_is_model, C17_generated_Range_keeps_elements_whole, C17_generated_EstimatedSize_is_model,
   C17_generated_counts_are_model, C17_generated_nil_receiver, C17_generated_MaxDepositCount_is_last,
-  C17_generated_limitCertSize_is_model, C17_generated_limitCertSize_returns_the_limit).
+  C17_generated_limitCertSize_is_model, C17_generated_limitCertSize_returns_the_limit,
+  C17_generated_AdaptCertificate_is_model, C17_generated_AdaptCertificate_clamps).
 Print Assumptions C17_all_generated_params.
